@@ -480,10 +480,26 @@ func runE2EWith(c *core.Ctx, asan bool) {
 		// stdin path fills a 4096-byte buffer): the first title line is padded so that the "\r" of
 		// a sequence line of a later record is the last byte of a 4 KiB block
 		firstEOL := bytes.Index(fc.text, []byte("\r\n"))
-		from := firstEOL + 2 + len(fc.text)/3
-		if q := bytes.Index(fc.text[min(from, len(fc.text)):], []byte("\r\n")); firstEOL > 0 && q >= 0 {
-			p := min(from, len(fc.text)) + q
-			pad := (4095 - (p+1)%4096 + 4096) % 4096
+		// the "\r" that ends the first sequence line of a record of the second half of the file
+		p, off, lineNo := -1, 0, 0
+		prevTitle := false
+		for _, ln := range bytes.SplitAfter(fc.text, []byte("\r\n")) {
+			isSeqLine := prevTitle
+			if format == "fastq" {
+				isSeqLine = lineNo%4 == 1
+				prevTitle = false
+			} else {
+				prevTitle = len(ln) > 0 && ln[0] == '>'
+			}
+			if isSeqLine && off > len(fc.text)/2 && bytes.HasSuffix(ln, []byte("\r\n")) {
+				p = off + len(ln) - 2
+				break
+			}
+			off += len(ln)
+			lineNo++
+		}
+		if firstEOL > 0 && p > firstEOL {
+			pad := (4095 - p%4096 + 4096) % 4096
 			if pad > 0 {
 				word := strings.Repeat("x", pad)
 				if fc.recs[0].Def == "" {
